@@ -8,6 +8,7 @@
 # @author Davide Brunato <brunato@sissa.it>
 #
 from collections.abc import Iterable, Iterator
+from copy import copy
 from typing import Any, Optional
 
 import elementpath.aliases as ta
@@ -98,10 +99,10 @@ class XPathArray(XPathFunction):
             # A comma in a curly array constructor is the comma operator, not a delimiter.
             items: list[ta.ValueType] = []
             for tk in self._items:
-                items.extend(tk.select(context))
+                items.extend(tk.select(copy(context)))
             return items
         else:
-            return [tk.evaluate(context) for tk in self._items]
+            return [tk.evaluate(copy(context)) for tk in self._items]
 
     def __call__(self, *args: ta.FunctionArgType, context: ta.ContextType = None) -> ta.ValueType:
         if len(args) == 1 and isinstance(args[0], list) and len(args[0]) == 1:
